@@ -987,7 +987,7 @@ static void part_ops(vf::Run& R)
                     continue;
                 }
                 check_located(c, v, root + "|", "after initialisation");
-                OpsSearch S{c, root, setdirs, R.thorough() ? 8 : 6, 2,
+                OpsSearch S{c, root, setdirs, R.thorough() ? 7 : 6, 2,
                             R.thorough() ? 3000000ull : 400000ull, R.thorough()};
                 Node n0{take_snap(*env), ph_free, 0, false, false, false};
                 S.dfs(n0, 0, 0);
